@@ -49,7 +49,14 @@ func parseItems(b []byte) (items []Item, tag []byte, err error) {
 		withEnd := append(append([]byte(nil), b...), closeTags[0]...)
 		elems, closed, rest, e := hx.ParseTopLevel(withEnd, nsClient)
 		for _, el := range elems {
-			items = append(items, itemOf(el))
+			it := itemOf(el)
+			if it.Kind == "close" && tag == nil {
+				tag = closeTags[1]
+				if !bytes.Contains(b, closeTags[1]) {
+					tag = []byte("<close/> in the framing name space, not in the canonical form")
+				}
+			}
+			items = append(items, it)
 		}
 		if e != nil {
 			return items, tag, e
@@ -72,6 +79,10 @@ func parseItems(b []byte) (items []Item, tag []byte, err error) {
 }
 
 func itemOf(el hx.Elem) Item {
+	// the closing element of the WebSocket framing is an ordinary element for the parser
+	if el.Local == "close" && el.Space == wsNS {
+		return Item{Kind: "close"}
+	}
 	if el.Local == "error" && el.Space == stream.NS {
 		return Item{Kind: "err"}
 	}
@@ -159,6 +170,15 @@ func judge(sc *Scenario, o *Outcome) (wire, residual []Item, tag []byte, probs [
 	}
 	if closerReturned && nclose == 0 {
 		add("C10/close/no-tag", "a Close call (or Serve) has returned but no closing tag is on the wire")
+	}
+	if tag != nil {
+		want := closeTags[0]
+		if sc.WS {
+			want = closeTags[1]
+		}
+		if !bytes.Equal(tag, want) {
+			add("C10/close/wrong-closing-element", fmt.Sprintf("the stream was closed with %q, this kind of session closes with %q", tag, want))
+		}
 	}
 	if o.OCL != (nclose > 0) {
 		add("C10/close/bit-disagrees-with-wire", fmt.Sprintf("OutputStreamClosed=%v but %d closing tags written", o.OCL, nclose))
@@ -331,8 +351,8 @@ func coqCase(sc *Scenario, o *Outcome, wire, residual []Item, tag []byte) string
 			rs = append(rs, "Some "+r)
 		}
 	}
-	return fmt.Sprintf("mkcase %s [%s] [%s] %s %s [%s] %s %s %s",
-		hx.CoqBool(sc.DLSup), strings.Join(ks, "; "), strings.Join(sch, "; "),
+	return fmt.Sprintf("mkcase %s %s [%s] [%s] %s %s [%s] %s %s %s",
+		hx.CoqBool(sc.DLSup), hx.CoqBool(sc.WS), strings.Join(ks, "; "), strings.Join(sch, "; "),
 		coqItems(wire), coqItems(residual), strings.Join(rs, "; "),
 		hx.CoqBool(o.OCL), hx.CoqBool(o.ICL), hx.CoqBytes(tag))
 }
